@@ -54,7 +54,7 @@ Fixpoint be_words (l : list Z) : list Z :=
   end.
 
 Definition sha_compress (st : sha_state) (block : list Z) : sha_state :=
-  let ws := rev (sha_extend 48 (rev (be_words block))) in
+  let ws := frev (sha_extend 48 (frev (be_words block))) in
   let '(a, b, c, d, e, f, g, h) := st in
   let '(a1, b1, c1, d1, e1, f1, g1, h1) := fold_left sha_round (combine sha_k ws) st in
   ((a + a1) mod P32, (b + b1) mod P32, (c + c1) mod P32, (d + d1) mod P32,
